@@ -18,6 +18,165 @@ pub struct HostileCase {
     pub sc: MuxScenario,
     /// hard stream fault (stream-call sequence number, fault) or none
     pub fault: Option<(u64, Fault)>,
+    /// long-run form: after the add_track calls of `sc`, this many write_sample calls of one
+    /// one-byte sample on track 1 (not materialised as ops), then write_end
+    #[serde(default)]
+    pub repeat: u64,
+    /// before API call `.0` (1 = first call after write_start) the sink's position is `.1`:
+    /// another handle on the same open file was used between two muxer calls
+    #[serde(default)]
+    pub reposition: Option<(u32, u64)>,
+}
+
+/// The history that no vector of operations can hold: more write_sample calls than the 32-bit
+/// sample counters of a track can count. Every call must return success or an error, and when
+/// write_end succeeds the file must describe exactly the accepted samples.
+fn eval_long_run(case: &HostileCase, st: &mut Stats) -> Vec<Violation> {
+    use crate::panicx::guard;
+    use std::io::Write as _;
+    let prop = "C17";
+    let mut out = Vec::new();
+    let sim = Sim::shared(crate::simdisk::SimDisk::new());
+    let file = crate::simdisk::SimFile::at(&sim, 0);
+    let cfg = crate::mux::to_mp4_config(&case.sc.cfg);
+    let mut w = match guard(|| mp4::Mp4Writer::write_start(file, &cfg)) {
+        Ok(Ok(w)) => w,
+        Ok(Err(e)) => {
+            out.push(Violation::new(prop, "long_run_setup", "api=write_start", format!("{e}")));
+            return out;
+        }
+        Err(p) => {
+            out.push(Violation::new(prop, "mux_panic", format!("api=write_start {}", p.discriminator()), format!("{} at {}", p.msg, p.location)));
+            return out;
+        }
+    };
+    for op in &case.sc.ops {
+        if let Op::AddTrack(tc) = op {
+            let c = crate::mux::to_track_config(tc);
+            match guard(|| w.add_track(&c)) {
+                Ok(Ok(())) => {}
+                Ok(Err(e)) => {
+                    out.push(Violation::new(prop, "long_run_setup", "api=add_track", format!("{e}")));
+                    return out;
+                }
+                Err(p) => {
+                    out.push(Violation::new(prop, "mux_panic", format!("api=add_track {}", p.discriminator()), format!("{} at {}", p.msg, p.location)));
+                    return out;
+                }
+            }
+        }
+    }
+    static ONE: [u8; 1] = [0x5A];
+    let sample = mp4::Mp4Sample { start_time: 0, duration: 1, rendering_offset: 0, is_sync: false, bytes: bytes::Bytes::from_static(&ONE) };
+    let n = case.repeat;
+    let mut calls = 0u64;
+    let mut accepted = 0u64;
+    let mut err_run = 0u32;
+    let mut first_err: Option<(u64, String)> = None;
+    let mut ok_after_err = false;
+    while calls < n && err_run < 3 {
+        let batch = (n - calls).min(1 << 24);
+        let r = guard(|| {
+            for _ in 0..batch {
+                calls += 1;
+                match w.write_sample(1, &sample) {
+                    Ok(_) => {
+                        accepted += 1;
+                        if first_err.is_some() {
+                            ok_after_err = true;
+                        }
+                        err_run = 0;
+                    }
+                    Err(e) => {
+                        if first_err.is_none() {
+                            first_err = Some((calls, format!("{e}")));
+                        }
+                        err_run += 1;
+                        if err_run >= 3 {
+                            return;
+                        }
+                    }
+                }
+            }
+        });
+        if let Err(p) = r {
+            st.case_digest = mix(st.case_digest, calls);
+            out.push(Violation::new(prop, "mux_panic", format!("api=write_sample {}", p.discriminator()), format!("call {calls} of a run of one-byte samples on one track: {} at {}", p.msg, p.location)));
+            return out;
+        }
+        // heartbeat for the supervisor: this case legitimately runs for minutes
+        let so = std::io::stdout();
+        let mut o = so.lock();
+        let _ = writeln!(o, "H {calls}");
+        let _ = o.flush();
+    }
+    st.inc("long_run.histories");
+    st.add("long_run.write_sample_calls", calls);
+    st.probe("probe.long_run_beyond_u32_samples", calls >= u32::MAX as u64);
+    st.probe("probe.long_run_rejection_seen", first_err.is_some());
+    st.case_digest = mix(st.case_digest, accepted);
+    st.case_digest = mix(st.case_digest, first_err.as_ref().map(|(c, m)| mix(*c, hash_str(m))).unwrap_or(0));
+    st.distinct.insert(mix(0x10e6, accepted));
+    match guard(|| w.write_end()) {
+        Err(p) => {
+            out.push(Violation::new(prop, "mux_panic", format!("api=write_end {}", p.discriminator()), format!("after {accepted} accepted samples: {} at {}", p.msg, p.location)));
+            return out;
+        }
+        Ok(Err(e)) => {
+            // an error is an allowed outcome; nothing further can be said about the file
+            st.inc("long_run.write_end_err");
+            st.case_digest = mix(st.case_digest, hash_str(&format!("{e}")));
+            return out;
+        }
+        Ok(Ok(())) => {}
+    }
+    let end = sim.borrow().disk.len();
+    st.case_digest = mix(st.case_digest, sim.borrow().disk.digest());
+    // read back: the file must describe exactly the accepted samples
+    let rf = crate::simdisk::SimFile::at(&sim, 0);
+    let mut rd = match guard(|| mp4::Mp4Reader::read_header(rf, end)) {
+        Ok(Ok(r)) => r,
+        Ok(Err(e)) => {
+            out.push(Violation::new(prop, "readback_open_failed", "long_run", format!("after {accepted} accepted samples: {e}")));
+            return out;
+        }
+        Err(p) => {
+            out.push(Violation::new(prop, "readback_panic", format!("long_run {}", p.discriminator()), format!("{} at {}", p.msg, p.location)));
+            return out;
+        }
+    };
+    let count = guard(|| rd.sample_count(1)).ok().and_then(|r| r.ok());
+    if count.map(|c| c as u64) != Some(accepted) {
+        out.push(Violation::new(prop, "sample_count", "long_run", format!("{accepted} write_sample calls returned Ok (of {calls}; first error: {first_err:?}), write_end returned Ok, the file declares {count:?} samples")));
+        return out;
+    }
+    let media_dur = rd.tracks().get(&1).map(|t| t.trak.mdia.mdhd.duration);
+    if media_dur != Some(accepted) {
+        out.push(Violation::new(prop, "mdhd_duration", "long_run", format!("{accepted} samples of duration 1 accepted, media duration {media_dur:?}")));
+    }
+    let mut ids: Vec<u64> = vec![1, 2, 3, 65535, 65536, 65537, accepted / 2, accepted.saturating_sub(65536), accepted.saturating_sub(1), accepted];
+    ids.retain(|k| *k >= 1 && *k <= accepted);
+    ids.dedup();
+    for k in ids {
+        match guard(|| rd.read_sample(1, k as u32)) {
+            Ok(Ok(Some(s))) => {
+                if s.bytes.as_ref() != &ONE[..] || s.start_time != k - 1 || s.duration != 1 {
+                    out.push(Violation::new(prop, "sample_bytes", "long_run", format!("sample {k} of {accepted}: {} bytes, start {}, duration {}", s.bytes.len(), s.start_time, s.duration)));
+                    break;
+                }
+            }
+            Ok(other) => {
+                out.push(Violation::new(prop, "sample_missing", "long_run", format!("sample {k} of {accepted}: {:?}", other.map(|o| o.is_some()).map_err(|e| format!("{e}")))));
+                break;
+            }
+            Err(p) => {
+                out.push(Violation::new(prop, "readback_panic", format!("long_run {}", p.discriminator()), format!("sample {k}: {} at {}", p.msg, p.location)));
+                break;
+            }
+        }
+    }
+    let _ = ok_after_err;
+    out
 }
 
 /// Is the history inside the domain in which the other muxer properties are stated? Judged on
@@ -49,8 +208,15 @@ impl Prop for C17 {
             Tier::Thorough => 6_000_000,
         }
     }
-    fn gen(seed: u64, _idx: u64, tier: Tier) -> HostileCase {
+    fn gen(seed: u64, idx: u64, tier: Tier) -> HostileCase {
         let mut r = Rng::new(seed);
+        if tier == Tier::Thorough && idx == 0 {
+            // one subtitle track at 65536 ticks per second: one chunk per 65536 one-byte samples
+            // keeps every table of the muxer small while the sample counters run past 2^32
+            let tc = TrackCfg { kind: Kind::Ttxt, track_type: Kind::Ttxt.natural_track_type(), timescale: 65536, language: "und".into(), width: 0, height: 0, sps: vec![], pps: vec![], aac_profile: 2, freq_index: 3, chan_conf: 2, bitrate: 0 };
+            let sc = MuxScenario { cfg: MovieCfg { major: *b"isom", minor: 512, compat: vec![], timescale: 1000 }, ops: vec![Op::AddTrack(tc)], start_pos: 0, io: IoKnobs::plain(), preexisting: 0, fault: None };
+            return HostileCase { sc, fault: None, repeat: (1u64 << 32) + 70_000, reposition: None };
+        }
         let mut o = GenOpts::hostile();
         if tier == Tier::Thorough {
             o.long_ops = 600;
@@ -105,10 +271,27 @@ impl Prop for C17 {
         } else {
             None
         };
-        HostileCase { sc, fault }
+        let reposition = if fault.is_none() && r.chance(1, 16) {
+            let api = 1 + r.below(sc.ops.len().max(1) as u64) as u32;
+            let pos = match r.below(6) {
+                0 => 0,
+                1 => r.below(64),
+                2 => sc.start_pos + r.below(64),
+                3 => r.below(1 << 16),
+                4 => (1u64 << 32) + r.below(1 << 16),
+                _ => 1u64 << 40,
+            };
+            Some((api, pos))
+        } else {
+            None
+        };
+        HostileCase { sc, fault, repeat: 0, reposition }
     }
     fn eval(case: &HostileCase, st: &mut Stats) -> Vec<Violation> {
         let prop = "C17";
+        if case.repeat > 0 {
+            return eval_long_run(case, st);
+        }
         let sc = &case.sc;
         let mut out = Vec::new();
         let sim = Sim::shared(modea::initial_disk(sc));
@@ -118,8 +301,10 @@ impl Prop for C17 {
             if let Some(f) = case.fault {
                 s.plan.push(f);
             }
+            s.reposition = case.reposition;
         }
         let run = run_mux(sc, &sim, None);
+        sim.borrow_mut().reposition = None;
         // a planned fault that never fired must not fire during the read-back
         sim.borrow_mut().plan.clear();
         {
@@ -157,8 +342,12 @@ impl Prop for C17 {
                 }
             }
         }
-        let fault_fired = sim.borrow().last_hard.is_some();
-        st.probe("probe.hard_fault_fired", fault_fired);
+        let moved = sim.borrow().fired.repositioned > 0;
+        st.probe("probe.position_moved_between_calls", moved);
+        // after either kind of fault only "no panic" is judged: the muxer cannot know where the
+        // bytes it wrote before went
+        let fault_fired = sim.borrow().last_hard.is_some() || moved;
+        st.probe("probe.hard_fault_fired", sim.borrow().last_hard.is_some());
         st.probe("probe.zero_timescale", sc.cfg.timescale == 0 || sc.ops.iter().any(|o| matches!(o, Op::AddTrack(t) if t.timescale == 0)));
         st.probe("probe.short_sps", sc.ops.iter().any(|o| matches!(o, Op::AddTrack(t) if t.kind == Kind::Avc && t.sps.len() < 4)));
         st.probe("probe.huge_sample", sc.ops.iter().any(|o| matches!(o, Op::Write { s, .. } if s.payload.len() >= (1 << 24) - 1)));
@@ -197,16 +386,25 @@ impl Prop for C17 {
     }
     fn shrink_steps(case: &HostileCase) -> Vec<HostileCase> {
         let mut v = Vec::new();
+        if case.repeat > 0 {
+            // the long run is its own minimal form (a shorter one does not reach the counters' end)
+            return v;
+        }
         if case.fault.is_some() {
-            v.push(HostileCase { sc: case.sc.clone(), fault: None });
+            v.push(HostileCase { sc: case.sc.clone(), fault: None, repeat: 0, reposition: case.reposition });
+        }
+        if case.reposition.is_some() {
+            v.push(HostileCase { sc: case.sc.clone(), fault: case.fault, repeat: 0, reposition: None });
         }
         for sc in modea::shrink_mux(&case.sc) {
-            v.push(HostileCase { sc, fault: case.fault });
+            // dropping an operation shifts the later calls: keep the move inside the history
+            let reposition = case.reposition.map(|(a, p)| (a.min(sc.ops.len().max(1) as u32), p));
+            v.push(HostileCase { sc, fault: case.fault, repeat: 0, reposition });
         }
         v
     }
     fn rule() -> String {
-        "seeded hostile muxing histories: the full value range of every public field (timescales incl. 0, empty/long/non-ASCII languages, SPS/PPS of 0..8 and >64 KiB bytes, mismatched track_type/media_conf, 0 or 300 brands, durations 0/u32::MAX, offsets i32::MIN/MAX, samples of 2^24-1/2^24/2^24+1 bytes, track ids 0/n+1/u32::MAX, no tracks), any call order up to write_end, a hard stream fault at a random call in 20% of the cases, each call under catch_unwind in the overflow-checked and in the wrapping build; when every call succeeded inside the documented domain the C01 read-back, C02 relations and C14 comparisons are applied; distinct_nontrivial = distinct (API call, error message) pairs plus distinct outcome sequences of the first 24 calls".into()
+        "seeded hostile muxing histories: the full value range of every public field (timescales incl. 0, empty/long/non-ASCII languages, SPS/PPS of 0..8 and >64 KiB bytes, mismatched track_type/media_conf, 0 or 300 brands, durations 0/u32::MAX, offsets i32::MIN/MAX, samples of 2^24-1/2^24/2^24+1 bytes, track ids 0/n+1/u32::MAX, no tracks), any call order up to write_end, a hard stream fault at a random call in 20% of the cases, the sink's position moved by somebody else between two calls in 6% (only "no panic" is judged after either), in the thorough tier one history of 2^32 + 70 000 write_sample calls on one track (every call Ok or Err, and the finished file describes exactly the accepted samples), each call under catch_unwind in the overflow-checked and in the wrapping build; when every call succeeded inside the documented domain the C01 read-back, C02 relations and C14 comparisons are applied; distinct_nontrivial = distinct (API call, error message) pairs plus distinct outcome sequences of the first 24 calls".into()
     }
     fn assumptions() -> Vec<String> {
         vec![
@@ -214,7 +412,18 @@ impl Prop for C17 {
             "the other muxer properties are applied only inside their own quantifier domain (timescales >= 1, track duration < 2^62 movie ticks)".into(),
         ]
     }
-    fn mandatory_probes(_t: Tier) -> Vec<&'static str> {
-        vec!["probe.hard_fault_fired", "probe.zero_timescale", "probe.short_sps", "probe.huge_sample", "probe.no_tracks", "probe.mismatched_track_type"]
+    fn mandatory_probes(t: Tier) -> Vec<&'static str> {
+        let mut v = Self::base_probes();
+        if t == Tier::Thorough {
+            v.push("probe.long_run_beyond_u32_samples");
+            v.push("probe.long_run_rejection_seen");
+        }
+        v
+    }
+}
+
+impl C17 {
+    fn base_probes() -> Vec<&'static str> {
+        vec!["probe.hard_fault_fired", "probe.position_moved_between_calls", "probe.zero_timescale", "probe.short_sps", "probe.huge_sample", "probe.no_tracks", "probe.mismatched_track_type"]
     }
 }
